@@ -1,2 +1,3 @@
 //! Reference models (oracles). Written from the specifications; no dependency on /repo code.
 pub mod tt;
+pub mod datalog;
